@@ -96,6 +96,11 @@ def run_e2e(ctx, nhost, tag):
         hosts.append(("corpus:" + os.path.basename(f), t))
     for i in range(nhost - len(hosts)):
         hosts.append(("gen%d" % i, progs.gen_program(rng, cfg, level=rng.choice([1, 2, 3, 4]))))
+    # hosts whose branches narrow union variables (C10's programs): a fragment with its own conditional inside a branch must leave
+    # the host's narrowing state alone
+    from .. import narrow
+    for i in range(max(4, nhost // 4)):
+        hosts.append(("narrow%d" % i, narrow.Gen(rng).program()))
     # hosts that probe configured methods on fresh literals (C12's probe file: results that show whole declared return types),
     # with fragments that call methods on union receivers of two literal classes in both orders
     from . import C12
